@@ -48,9 +48,9 @@ func (h hostile) String() string {
 
 // env is one accessory with one connection driven into a protocol state.
 type env struct {
-	l      *fixture.L2
-	tb     *fixture.TestBed
-	c      *fixture.L2Conn
+	l       *fixture.L2
+	tb      *fixture.TestBed
+	c       *fixture.L2Conn
 	tr      refctl.Transport                  // the connection under attack
 	newConn func() (refctl.Transport, func()) // a fresh connection to the same accessory
 	wipe    func()                            // removes all controller pairings
@@ -58,11 +58,11 @@ type env struct {
 	shut    func()
 	wire    bool // wire level: a dropped connection is visible as such
 	dead    bool // the accessory announced "Connection: close" or closed the connection after a response
-	ctrl   *refctl.Controller
-	srp    *refctl.SRPClient   // after setup M2/M4
-	m2     refctl.SetupM2      // setup M2
-	vs     *refctl.VerifyState // after verify M2
-	prefix string
+	ctrl    *refctl.Controller
+	srp     *refctl.SRPClient   // after setup M2/M4
+	m2      refctl.SetupM2      // setup M2
+	vs      *refctl.VerifyState // after verify M2
+	prefix  string
 }
 
 func wipeDir(dir, own string) {
@@ -88,6 +88,7 @@ func newEnv(prefix string, seed []byte) (*env, error) {
 	e.wipe = func() { wipeDir(l.Dir, l.Device.Name()) }
 	e.shut = func() { e.c.Close(); l.Close() }
 	save := func() { l.DB.SaveEntity(db.NewEntity(e.ctrl.ID, e.ctrl.LTPK, nil)) }
+	l.DB.SaveEntity(db.NewEntity("odd-key-controller", bytes.Repeat([]byte{3}, 31), nil))
 	return e, e.drive(seed, save)
 }
 
@@ -98,6 +99,7 @@ func newEnvWire(prefix string, seed []byte) (*env, error) {
 	e := &env{tb: tb, ctrl: refctl.NewController("honest-controller", seed), prefix: prefix, wire: true}
 	d, _ := db.NewDatabase(dir)
 	d.SaveEntity(db.NewEntity(e.ctrl.ID, e.ctrl.LTPK, nil)) // paired through the database: no mDNS delay
+	d.SaveEntity(db.NewEntity("odd-key-controller", bytes.Repeat([]byte{3}, 31), nil))
 	acc, err := tb.Start(dir, "03145154", true)
 	if err != nil {
 		os.RemoveAll(dir)
@@ -229,7 +231,7 @@ func (e *env) honestNext(setup bool) []byte {
 
 func mutateTLV(t *rapid.T, in []byte, e *env, setup bool) ([]byte, string) {
 	items, _ := refctl.RawFragments(in)
-	kind := rapid.SampledFrom([]string{"truncate", "drop-item", "dup-item", "reorder", "overlong-length", "short-encrypted", "wrong-tag", "sealed-garbage", "empty-values", "extra-items", "huge-item"}).Draw(t, "mut")
+	kind := rapid.SampledFrom([]string{"truncate", "drop-item", "dup-item", "reorder", "overlong-length", "short-encrypted", "wrong-tag", "sealed-garbage", "empty-values", "extra-items", "huge-item", "odd-ltpk", "odd-ltpk"}).Draw(t, "mut")
 	enc := func(its []refctl.Item) []byte {
 		var out []byte
 		for _, it := range its {
@@ -305,6 +307,17 @@ func mutateTLV(t *rapid.T, in []byte, e *env, setup bool) ([]byte, string) {
 			items = append(items, refctl.Item{Tag: rapid.Byte().Draw(t, "tag"), Value: rapid.SliceOfN(rapid.Byte(), 0, 40).Draw(t, "val")})
 		}
 		return enc(items), kind
+	case "odd-ltpk":
+		n := rapid.SampledFrom([]int{0, 1, 31, 33, 64}).Draw(t, "keylen")
+		sub := refctl.EncodeTLV8([]refctl.Item{{Tag: refctl.TagIdentifier, Value: []byte("odd-key-controller")}, {Tag: refctl.TagPublicKey, Value: bytes.Repeat([]byte{3}, n)}, {Tag: refctl.TagSignature, Value: bytes.Repeat([]byte{4}, rapid.SampledFrom([]int{64, 63, 0}).Draw(t, "siglen"))}})
+		if setup && e.srp != nil && e.srp.K != nil {
+			return refctl.SetupM5(refctl.SetupSessionKey(e.srp.K), sub), kind
+		}
+		if !setup && e.vs != nil && e.vs.Key != nil {
+			// names the entity that was stored with a key of odd length (see newEnv)
+			return refctl.VerifyM3(e.vs.Key, sub), kind
+		}
+		return refctl.SetupM5(make([]byte, 32), sub), kind
 	case "huge-item":
 		return refctl.EncodeTLV8(append(items, refctl.Item{Tag: rapid.SampledFrom([]byte{1, 3, 4, 5, 10}).Draw(t, "tag"), Value: bytes.Repeat([]byte{7}, rapid.IntRange(256, 5000).Draw(t, "n"))})), kind
 	}
@@ -418,8 +431,36 @@ func (e *env) recovery(seed []byte) error {
 		return fmt.Errorf("afterwards the accessory no longer accepts connections")
 	}
 	defer closeNC()
-	if err := handshake(nc, refctl.NewController("recovery-new-conn", append([]byte("n"), seed...)), append([]byte("n"), seed...), 0); err != nil {
+	rc := refctl.NewController("recovery-new-conn", append([]byte("n"), seed...))
+	if err := handshake(nc, rc, append([]byte("n"), seed...), 0); err != nil {
 		return fmt.Errorf("afterwards an honest handshake on a NEW connection fails: %v", err)
+	}
+	if !e.wire {
+		// the verified controller can use every endpoint (a handler that hangs or fails now means the accessory is unable to serve)
+		other := refctl.NewController("recovery-added", append([]byte("x"), seed...))
+		steps := []struct {
+			what, method, path, ctype string
+			body                      []byte
+		}{
+			{"GET /accessories", "GET", "/accessories", "", nil},
+			{"GET /characteristics", "GET", fmt.Sprintf("/characteristics?id=%d.%d", e.tb.Bulb.ID, e.tb.Text.ID), "", nil},
+			{"PUT /characteristics", "PUT", "/characteristics", refctl.ContentJSON, []byte(fmt.Sprintf(`{"characteristics":[{"aid":%d,"iid":%d,"value":"recovered"}]}`, e.tb.Bulb.ID, e.tb.Text.ID))},
+			{"POST /pairings add", "POST", "/pairings", refctl.ContentTLV8, refctl.EncodeTLV8([]refctl.Item{{Tag: refctl.TagState, Value: []byte{1}}, {Tag: refctl.TagMethod, Value: []byte{3}}, {Tag: refctl.TagIdentifier, Value: []byte(other.ID)}, {Tag: refctl.TagPublicKey, Value: other.LTPK}, {Tag: refctl.TagPermissions, Value: []byte{0}}})},
+			{"POST /pairings remove", "POST", "/pairings", refctl.ContentTLV8, refctl.EncodeTLV8([]refctl.Item{{Tag: refctl.TagState, Value: []byte{1}}, {Tag: refctl.TagMethod, Value: []byte{4}}, {Tag: refctl.TagIdentifier, Value: []byte(other.ID)}})},
+			{"POST /resource", "POST", "/resource", refctl.ContentJSON, []byte(`{"resource-type":"image","image-width":8,"image-height":8}`)},
+		}
+		for _, st := range steps {
+			r, err := nc.Do(st.method, st.path, st.ctype, st.body)
+			if err != nil {
+				return fmt.Errorf("afterwards the verified controller's %s fails: %v", st.what, err)
+			}
+			if r.Status >= 400 {
+				return fmt.Errorf("afterwards the verified controller's %s is answered with HTTP %d", st.what, r.Status)
+			}
+		}
+		if e.tb.Text.GetValue() != "recovered" {
+			return fmt.Errorf("afterwards the verified controller's write does not reach the application")
+		}
 	}
 	if e.dead {
 		return nil // the accessory closed the attacked connection after answering (HTTP-level refusal)
@@ -443,6 +484,9 @@ func deliver(e *env, h hostile) error {
 		if pe, ok := err.(*fixture.PanicError); ok {
 			return fmt.Errorf("handler panicked: %v", pe.Value)
 		}
+		if we, ok := err.(*fixture.WedgedError); ok {
+			return fmt.Errorf("wedged: %v", we)
+		}
 		if e.wire {
 			if err == refctl.ErrClosed {
 				return fmt.Errorf("the accessory dropped the connection without a response")
@@ -459,6 +503,13 @@ func deliver(e *env, h hostile) error {
 	}
 	if strings.EqualFold(r.Header["connection"], "close") {
 		e.dead = true
+	}
+	if e.wire && strings.HasPrefix(h.Path, "/pair-verify") && r.Status == 200 {
+		// a mutation that leaves the finish message valid (e.g. an extra item next to it) verifies the
+		// connection: from now on it is encrypted and the plaintext harness connection is done
+		if m4, err := refctl.ParseVerifyM4(r.Body); err == nil && m4.State == 4 && !m4.HasError {
+			e.dead = true
+		}
 	}
 	return nil
 }
@@ -559,7 +610,6 @@ func TestC13Regress(t *testing.T) {
 		}
 	}
 }
-
 
 // TestC13Wire: the same hostile requests over loopback TCP against a started transport: every
 // request must receive a complete HTTP response (a dropped connection is a violation), and the
